@@ -376,7 +376,15 @@ impl<'r> G<'r> {
         for _ in 0..n {
             let seq = if !self.core && self.rng.chance(1, 15) { seqlen + self.rng.below(2) } else { self.rng.below(seqlen) };
             let h: Hints = hints.iter().skip(seq).cloned().collect();
-            let li = if singles_only {
+            let li = if singles_only && self.core && depth == 1 && self.rng.chance(1, 4) {
+                // third level: context > context > context > single substitutions (three context
+                // lookups nested is what allsorts' nesting limit still applies completely)
+                let chain = self.rng.bool();
+                let (flag, ms) = if self.rng.bool() { (pflag, pms) } else { (0, None) };
+                let l = self.context(chain, Some((flag, ms)), lookups, depth + 1, Some(&h), sigpres || flag != 0);
+                lookups.push(l);
+                (lookups.len() - 1) as u16
+            } else if singles_only {
                 let (flag, ms) = if self.rng.bool() { (pflag, pms) } else { (0, None) };
                 let lt = if self.rng.chance(4, 5) { 1 } else { 3 };
                 let l = self.simple(lt, flag, ms, sigpres, &h);
